@@ -38,9 +38,11 @@ CHECKS = {
               "shared set saturates at 2^20 entries: a larger true count is reported as that lower bound; exact totals are "
               "in counters *.numerals)."),
         bounds=dict(
-            quick=("integers: all strings over %s of length <=5 x bases {0,2,8,10,16,36} x trailing {0,1} x 11 integer types x 7-8 bounds forms; "
+            quick=("integers: all strings over %s of length <=5 x bases {0,2,8,10,16,36} x trailing {0,1} x 11 integer types x 10 bounds forms "
+                   "(type limits, inside, negative, empty, beyond the type, and maximum exactly 0 as [0,0], [-5,0] and for signed targets [min,0]; "
+                   "PARSENUM spellings incl. [0,0]); "
                    "~95 boundary values x bases 2..36 x 8-12 decorations; floats: all strings over %s of length <=5 + 150 explicit strings "
-                   "x {float,double} x 9 bounds forms x trailing; humansize_parse: all strings over %s of length <=5 + overflow-boundary "
+                   "x {float,double} x 11 bounds forms (incl. [0,0] and [-5,0]) x trailing; humansize_parse: all strings over %s of length <=5 + overflow-boundary "
                    "numerals x 42 suffixes; humansize: every representable value v (v-1,v,v+1,midpoint), 2^64-1, all sizes 0..200000"
                    % (_INT_ALPHA, _FLT_ALPHA, _HS_ALPHA)),
             thorough=("as quick with integer strings of length <=6, float strings of length <=6, humansize_parse strings of length <=7, "
@@ -64,7 +66,7 @@ CLAIMS = {
               "several bases, prefix letter, junk; 16 characters with upper-case X, F and Z in the thorough tier) up to length 6, every string "
               "over a 14-character float alphabet up to length 6 (quick tier) / over 15 characters (with upper-case E) up to length 7 (thorough tier) "
               "and every string over a 12-character size alphabet up to length 7 / 8 is parsed by the real macros/functions for every "
-              "integer width and signedness, float and double, 7-9 bounds forms (type limits, inside, negative, empty, beyond the type), "
+              "integer width and signedness, float and double, 10-11 bounds forms (type limits, inside, negative, empty, beyond the type, maximum exactly 0), "
               "6 bases and both trailing flags, plus generated numerals at every type limit and bound +-1 in all bases 2..36, and compared "
               "with an independent grammar parser that computes values exactly in 128-bit / big-integer arithmetic.  humansize() is "
               "checked on every representable output value and its neighbours.  Within these bounds any wrong value, wrong "
